@@ -2158,6 +2158,12 @@ static int64_t eval_raw(Node *node, char ***label) {
     if (!label)
       error_tok(node->tok, "not a compile-time constant");
     return eval_rval(node->lhs, label);
+  case ND_DEREF:
+    // An lvalue of array type, e.g. `m[1]` of `int m[2][3]`, is not
+    // read: it decays to the address of its first element.
+    if (!label || node->ty->kind != TY_ARRAY)
+      error_tok(node->tok, "not a compile-time constant");
+    return eval2(node->lhs, label);
   case ND_LABEL_VAL:
     if (!label)
       error_tok(node->tok, "not a compile-time constant");
